@@ -458,15 +458,20 @@ func checkForEach(keys []*big.Int, stop *big.Int, visited []*big.Int) string {
 // ---------------------------------------------------------------- generation
 
 type dictGen struct {
-	rng    *lib.Rng
-	kk, vk kind
-	target int
-	nextK  int64
-	nextV  int64
+	rng      *lib.Rng
+	kk, vk   kind
+	target   int
+	nextK    int64
+	nextV    int64
+	hugeLeft int // how many more non-inlinable Int keys / values this history may introduce
 }
 
 func (g *dictGen) freshKey() *big.Int {
 	g.nextK++
+	if g.kk == KInt && g.hugeLeft > 0 && (g.nextK == 2 || g.rng.Chance(1, 14)) {
+		g.hugeLeft--
+		return hugeInt(g.rng, g.nextK)
+	}
 	if g.kk == KInt {
 		switch g.rng.Intn(30) {
 		case 0:
@@ -488,6 +493,10 @@ func (g *dictGen) key(d *odict) *big.Int {
 
 func (g *dictGen) val() *big.Int {
 	g.nextV++
+	if g.vk == KInt && g.hugeLeft > 0 && (g.nextV == 3 || g.rng.Chance(1, 14)) {
+		g.hugeLeft--
+		return hugeInt(g.rng, g.nextV)
+	}
 	if g.rng.Chance(1, 5) {
 		return bi(1 + int64(g.rng.Intn(int(g.nextV)))) // repeated values
 	}
